@@ -1,0 +1,90 @@
+//go:build verif
+
+package rhp
+
+// Contracts for the host side of RHP4 (rhp/v4/server.go), read by /verif/gocv.
+// Comments only; compiled solely under the build tag "verif".
+//
+// The renter's messages are arbitrary (ReadRequest / ReadResponse fill the message object with
+// any content). What the host may persist is stated as preconditions of the Contractor's
+// mutating methods; every handler has to establish them at its call site, on every path.
+//
+// Assumed contracts on core (transcribed from core v0.21.7 rhp/v4/rhp.go, validation.go):
+//@ extern rhp4.ReviseForFreeSectors pure
+//@   ensures result2 == nil ==> result0.FileMerkleRoot == newRoot && result0.Filesize == fc.Filesize - rhp4.SectorSize * deletions
+//@ extern rhp4.ReviseForAppendSectors pure
+//@   ensures result2 == nil ==> result0.FileMerkleRoot == root && result0.Filesize == fc.Filesize + rhp4.SectorSize * appended
+//@ extern rhp4.ReviseForSectorRoots pure
+//@   ensures result0.Filesize == fc.Filesize && result0.FileMerkleRoot == fc.FileMerkleRoot
+//@ extern rhp4.MetaRoot pure
+//@ extern rhp4.BuildFreeSectorsProof
+//@   assigns nothing
+//@ extern rhp4.BuildAppendProof
+//@   assigns nothing
+//@ extern rhp4.BuildSectorRootsProof
+//@   assigns nothing
+//@ extern (types.PrivateKey).SignHash pure
+//@ extern (types.PrivateKey).PublicKey pure
+//@ extern (*rhp4.RPCFreeSectorsRequest).ValidChallengeSignature pure
+//@ extern (*rhp4.RPCAppendSectorsRequest).ValidChallengeSignature pure
+//@ extern (*rhp4.RPCFreeSectorsRequest).Validate
+//@   assigns nothing
+//@   ensures result == nil ==> len(req.Indices) <= fc.Filesize / rhp4.SectorSize
+//@ extern (*rhp4.RPCAppendSectorsRequest).Validate
+//@   assigns nothing
+//@ iface ChainManager.TipState
+//@   assigns nothing
+//@ iface ChainManager.Tip
+//@   assigns nothing
+//@ iface Sectors.HasSector
+//@   assigns nothing
+//@ func errorBadRequest
+//@   assigns nothing
+//@   ensures result != nil
+//@ func errorDecodingError
+//@   assigns nothing
+//@   ensures result != nil
+//
+// ---------------------------------------------------------------------------
+// The Contractor (abstract): what a handler gets from the lock and what it may commit.
+//
+//@ iface Contractor.LockV2Contract
+//@   params id
+//@   assigns nothing
+//@   ensures result2 == nil ==> len(result0.Roots) * rhp4.SectorSize == result0.Revision.Filesize && rhp4.MetaRoot(result0.Roots) == result0.Revision.FileMerkleRoot
+//@   borrowed result0.Roots
+//
+// C08 + C09: a revision is committed only (locked) under the lock of that contract, (built) with the
+// terms core computes from the locked revision, (rentersig) after the renter's key of the locked
+// revision verified a signature over the hash of exactly that revision, (hostsig) signed by the host
+// key over the same hash, and (roots) together with roots that hash to its Merkle root and match
+// its file size.
+//@ iface Contractor.ReviseV2Contract
+//@   assigns nothing
+//@   requires [locked] called("LockV2Contract") && callres("LockV2Contract", 2) == nil && callarg("LockV2Contract", 1) == contractID && callres("LockV2Contract", 0).Revisable
+//@   requires [built] (called("ReviseForFreeSectors") && callres("ReviseForFreeSectors", 2) == nil && sameTerms(revision, callres("ReviseForFreeSectors", 0)) && callarg("ReviseForFreeSectors", 0) == callres("LockV2Contract", 0).Revision)
+//@                 || (called("ReviseForAppendSectors") && callres("ReviseForAppendSectors", 2) == nil && sameTerms(revision, callres("ReviseForAppendSectors", 0)) && callarg("ReviseForAppendSectors", 0) == callres("LockV2Contract", 0).Revision)
+//@                 || (called("ReviseForSectorRoots") && callres("ReviseForSectorRoots", 2) == nil && sameTerms(revision, callres("ReviseForSectorRoots", 0)) && callarg("ReviseForSectorRoots", 0) == callres("LockV2Contract", 0).Revision)
+//@   requires [rentersig] called("VerifyHash") && callres("VerifyHash") && callarg("VerifyHash", 0) == callres("LockV2Contract", 0).Revision.RenterPublicKey
+//@                 && callarg("VerifyHash", 1) == callres("ContractSigHash") && sameTerms(callarg("ContractSigHash", 1), revision) && callarg("VerifyHash", 2) == revision.RenterSignature
+//@   requires [hostsig] called("SignHash") && revision.HostSignature == callres("SignHash") && callarg("SignHash", 1) == callres("ContractSigHash")
+//@   requires [prices] called("Validate") && callres("Validate") == nil
+//@   requires [roots-root] rhp4.MetaRoot(roots) == revision.FileMerkleRoot
+//@   requires [roots-size] len(roots) * rhp4.SectorSize == revision.Filesize
+//
+//@ func (*Server).lockContractForRevision
+//@   inline
+//
+//@ func (*Server).handleRPCFreeSectors props C08,C09
+//@   nopanic
+//@   requires s != nil && s.contractor != nil && s.chain != nil && stream != nil
+//@   loop "range req.Indices"
+//@     invariant -1 <= rangeindex && rangeindex < len(req.Indices)
+//@     invariant forall j int :: { req.Indices[j] } 0 <= j && j <= rangeindex ==> req.Indices[j] < len(state.Roots)
+//@   loop "range req.Indices" #2
+//@     invariant -1 <= rangeindex && rangeindex < len(req.Indices) && len(roots) == len(state.Roots) && !sameArray(roots, state.Roots)
+//@     invariant forall j int :: { req.Indices[j] } 0 <= j && j < len(req.Indices) ==> req.Indices[j] < len(state.Roots)
+//
+//@ func (*Server).handleRPCSectorRoots props C08,C09
+//@   nopanic
+//@   requires s != nil && s.contractor != nil && s.chain != nil && stream != nil
